@@ -10,6 +10,7 @@ import (
 	"errors"
 	"fmt"
 	"math"
+	"sort"
 	"strconv"
 	"strings"
 	"sync/atomic"
@@ -172,6 +173,51 @@ func containsErr(v interface{}) bool {
 		}
 	}
 	return false
+}
+
+// errMsgs collects, by position, the message of every Go error in a Go value
+// (direct, or nested in []interface{} / map[string]interface{}; Tengo objects
+// are not Go errors).
+func errMsgs(v interface{}, path string, out map[string]string) {
+	switch x := v.(type) {
+	case tengo.Object:
+	case error:
+		out[path] = x.Error()
+	case []interface{}:
+		for i, e := range x {
+			errMsgs(e, path+"["+strconv.Itoa(i)+"]", out)
+		}
+	case map[string]interface{}:
+		for k, e := range x {
+			errMsgs(e, path+"."+k, out)
+		}
+	}
+}
+
+// checkErrMsgs: the property's normalisation "error to its message": a Go
+// error handed in must read back as an error with the same message.
+func checkErrMsgs(in, back interface{}) string {
+	want, got := map[string]string{}, map[string]string{}
+	errMsgs(in, "x", want)
+	if len(want) == 0 {
+		return ""
+	}
+	errMsgs(back, "x", got)
+	paths := make([]string, 0, len(want))
+	for p := range want {
+		paths = append(paths, p)
+	}
+	sort.Strings(paths)
+	for _, p := range paths {
+		g, ok := got[p]
+		if !ok {
+			continue // not an error at all: reported by the type-level comparison
+		}
+		if g != want[p] {
+			return fmt.Sprintf("at %s the error reads back with message %q, handed in with message %q", p, g, want[p])
+		}
+	}
+	return ""
 }
 
 // ---- the alphabet ----------------------------------------------------------------
@@ -539,6 +585,10 @@ func runConvert(name string) (fails []fail, obs string) {
 	if got := renderGo(back, false); got != es {
 		add("roundtrip/"+gv.Kind, "ToInterface(FromInterface(x)) = "+clip(got, 200)+", expected "+clip(es, 200))
 	}
+	errMsgBad := checkErrMsgs(gv.Mk(), back)
+	if errMsgBad != "" {
+		errMsgBad = "ToInterface(FromInterface(x)): " + errMsgBad
+	}
 	// the same through the script `out := a`
 	for _, bySet := range []bool{false, true} {
 		how := "Script.Add"
@@ -558,7 +608,13 @@ func runConvert(name string) (fails []fail, obs string) {
 			if got := renderGo(v2, false); got != es {
 				add("roundtrip/"+gv.Kind, how+" -> `out := a` -> Get(out).Value() = "+clip(got, 200)+", expected "+clip(es, 200))
 			}
+			if m := checkErrMsgs(gv.Mk(), v2); m != "" && errMsgBad == "" {
+				errMsgBad = how + " -> `out := a` -> Get(out).Value(): " + m
+			}
 		}
+	}
+	if errMsgBad != "" {
+		add("roundtrip/error-message", errMsgBad+" (property: round trip is the identity up to 'error to its message')")
 	}
 	// second trip is the identity on the normal form (error text excluded: not documented)
 	if !containsErr(back) && !strings.Contains(es, "error") {
